@@ -2,7 +2,7 @@
    ProofsC12.v / ProofsC13.v.  Every theorem is about [run] / [step] of Window/Run.v,
    i.e. the very definitions the correspondence check evaluates against the Rust code. *)
 From Coq Require Import Sorted.
-From VP Require Import Base.Tactics Window.Model Window.Run Window.Spec Window.ProofsC12.
+From VP Require Import Base.Tactics Window.Model Window.Run Window.Spec Window.ProofsC12 Window.ProofsC13.
 Open Scope Z_scope.
 
 (* ------------------------------------------------------------------ C12 *)
@@ -69,4 +69,90 @@ Example C12_example_windows :
   = [[mkEv 0 0 (-1); mkEv 1 2 (-1); mkEv 2 2 (-1); mkEv 3 3 (-1)]; [mkEv 4 7 (-1); mkEv 5 9 (-1)]; [mkEv 6 12 (-1)]]
   /\ add_windows C12_example_ops (fst (run (init (KCount 3)) C12_example_ops))
   = [[mkEv 0 0 (-1); mkEv 1 2 (-1); mkEv 2 2 (-1)]; [mkEv 3 3 (-1); mkEv 4 7 (-1); mkEv 5 9 (-1)]].
+Proof. vm_compute. repeat split. Qed.
+
+(* ------------------------------------------------------------------ C13 *)
+(* For every (size, slide) and every in-order stream (ties allowed) the time-sliding window
+   emits exactly according to [time_schedule]: an arrival emits iff it is the first one or
+   at least [slide] after the previous emitting arrival, and the emission is, in arrival
+   order, exactly the arrivals so far whose timestamp is within [size] of the trigger. *)
+Theorem C13_time_sliding : forall size slide es,
+  in_order es ->
+  fst (run (init (KSliding size slide)) (map Add es)) = map of_opt (time_schedule size slide [] None es).
+Proof.
+  intros size slide es Ho. cbn [init]. rewrite run_sl. cbn [fst]. f_equal. now apply sliding_run0.
+Qed.
+
+(* For every (size, slide) and every stream the count-sliding window emits exactly according
+   to [count_schedule]: an arrival emits iff at least [size] events have arrived and at
+   least [slide] since the previous emission (or the start); the emission is the last
+   [size] arrivals. *)
+Theorem C13_count_sliding : forall size slide es,
+  fst (run (init (KSlidingCount size slide)) (map Add es)) = map of_opt (count_schedule size slide [] 0 es).
+Proof.
+  intros size slide es. cbn [init]. rewrite run_sc. cbn [fst]. f_equal.
+  apply (count_sliding_run es [] (sc_new size slide)). reflexivity.
+Qed.
+
+(* Partitioned forms (PartitionedSlidingWindow; PartitionedSlidingCountWindowState of
+   engine/types.rs): what the window answers at the arrivals of key k is the plain schedule
+   of the key's sub-stream -- other keys' events never influence it. *)
+Theorem C13_time_sliding_partitioned : forall size slide es k,
+  in_order (of_key k es) ->
+  pick k es (fst (run (init (KPSliding size slide)) (map Add es)))
+  = map of_opt (time_schedule size slide [] None (of_key k es)).
+Proof.
+  intros size slide es k Ho. cbn [init]. rewrite run_psl. cbn [fst]. rewrite pick_picko. f_equal.
+  destruct (prun (sl_new size slide) sl_add [] es) as [m' outs] eqn:E. cbn [snd].
+  pose proof (prun_proj (sl_new size slide) sl_add es [] k m' outs E) as H.
+  cbn [pget_or_new pget] in H. rewrite <- (sliding_run0 size slide _ Ho). now rewrite H.
+Qed.
+
+Theorem C13_count_sliding_partitioned : forall size slide es k,
+  pick k es (fst (run (init (KPSlidingCount size slide)) (map Add es)))
+  = map of_opt (count_schedule size slide [] 0 (of_key k es)).
+Proof.
+  intros size slide es k. cbn [init]. rewrite run_psc. cbn [fst]. rewrite pick_picko. f_equal.
+  destruct (prun (sc_new size slide) sc_add [] es) as [m' outs] eqn:E. cbn [snd].
+  pose proof (prun_proj (sc_new size slide) sc_add es [] k m' outs E) as H.
+  cbn [pget_or_new pget] in H.
+  pose proof (count_sliding_run (of_key k es) [] (sc_new size slide) eq_refl) as H2. cbn [sc_new sc_size sc_slide sc_since] in H2.
+  rewrite <- H2. now rewrite H.
+Qed.
+
+(* The contents clauses spelled out, without the schedule functions. *)
+Theorem C13_time_contents : forall size slide es i e l,
+  in_order es -> nth_error es i = Some e ->
+  nth_error (fst (run (init (KSliding size slide)) (map Add es))) i = Some (OWin l) ->
+  l = filter (fun x => ets e - size <=? ets x) (firstn (S i) es).
+Proof.
+  intros size slide es i e l Ho He H. rewrite (C13_time_sliding _ _ _ Ho), nth_error_map in H.
+  destruct (nth_error (time_schedule size slide [] None es) i) as [[l0|]|] eqn:E; cbn in H; inv H.
+  exact (time_schedule_contents _ _ _ _ _ _ _ _ E He).
+Qed.
+
+Theorem C13_count_contents : forall size slide es i l,
+  nth_error (fst (run (init (KSlidingCount size slide)) (map Add es))) i = Some (OWin l) ->
+  l = lastn size (firstn (S i) es) /\ (size <= length (firstn (S i) es))%nat.
+Proof.
+  intros size slide es i l H. rewrite C13_count_sliding, nth_error_map in H.
+  destruct (nth_error (count_schedule size slide [] 0 es) i) as [[l0|]|] eqn:E; cbn in H; inv H.
+  exact (count_schedule_contents _ _ _ _ _ _ _ E).
+Qed.
+
+Example C13_example_stream : list ev :=
+  [mkEv 0 0 0; mkEv 1 1 1; mkEv 2 1 0; mkEv 3 3 0; mkEv 4 4 1; mkEv 5 4 0; mkEv 6 7 0].
+Example C13_example_in_order : in_order C13_example_stream /\ in_order (of_key 0 C13_example_stream).
+Proof.
+  split; cbn; repeat (constructor; [|repeat (constructor; [cbn; lia|]); constructor]); constructor.
+Qed.
+Example C13_example_emissions :
+  fst (run (init (KSliding 3 2)) (map Add C13_example_stream))
+  = [OWin [mkEv 0 0 0]; ONone; ONone; OWin [mkEv 0 0 0; mkEv 1 1 1; mkEv 2 1 0; mkEv 3 3 0]; ONone; ONone;
+     OWin [mkEv 4 4 1; mkEv 5 4 0; mkEv 6 7 0]]
+  /\ fst (run (init (KSlidingCount 3 2)) (map Add C13_example_stream))
+  = [ONone; ONone; OWin [mkEv 0 0 0; mkEv 1 1 1; mkEv 2 1 0]; ONone; OWin [mkEv 2 1 0; mkEv 3 3 0; mkEv 4 4 1]; ONone;
+     OWin [mkEv 4 4 1; mkEv 5 4 0; mkEv 6 7 0]]
+  /\ pick 0 C13_example_stream (fst (run (init (KPSliding 3 2)) (map Add C13_example_stream)))
+  = [OWin [mkEv 0 0 0]; ONone; OWin [mkEv 0 0 0; mkEv 2 1 0; mkEv 3 3 0]; ONone; OWin [mkEv 5 4 0; mkEv 6 7 0]].
 Proof. vm_compute. repeat split. Qed.
